@@ -2,6 +2,7 @@
 package all
 
 import (
+	_ "verifharness/c02"
 	_ "verifharness/c04"
 	_ "verifharness/c10"
 	_ "verifharness/c18"
